@@ -132,6 +132,8 @@ def shards(tier, seed):
             variants = [("full", -1, -1, "-9 <= a <= 9 and -9 <= b <= 9 and -9 <= c <= 9 and -9 <= d <= 9", "[-9,9]")]
             small = "0 <= a <= 1 and 0 <= b <= 1 and 0 <= c <= 1 and 0 <= d <= 1"
             empties = [(0, -1), (-1, 0)] + ([(nl - 1, nr - 1)] if tier == "thorough" else [])
+            if nr > 1:
+                empties.append((-1, nr - 1))      # an empty LAST right-hand document (a surplus one when nr > nl)
             for el, er in empties:
                 variants.append(("empty_l%d_r%d" % (el, er), el, er, small, "[0,1] (enumerated)"))
             for vname, el, er, lpre, ldesc in variants:
